@@ -14,12 +14,15 @@ from . import build
 
 import_sismic()
 from sismic.interpreter import Interpreter  # noqa: E402
+from sismic.code import Evaluator, PythonEvaluator  # noqa: E402
+from sismic.clock import SimulatedClock  # noqa: E402
+from fractions import Fraction  # noqa: E402
 from sismic.model import Event, InternalEvent, MetaEvent  # noqa: E402
 from sismic.exceptions import ConflictingTransitionsError, NonDeterminismError  # noqa: E402
 
 DT = (0.125, 0.5, 1, 1, 1, 2, 5)
 DELAYS = (0, 0, 0, 0.125, 1, 1, 2, 5)
-DELAYS_NEG = (0, 0, 0, 0.125, 1, 1, 2, 5, -1, -0.125, -5)     # the repository's own tests queue events with a negative delay
+DELAYS_NEG = (0, 0, 0, 0.125, 1, 1, 2, 5, -1, -0.125, -5, Fraction(1, 2), Fraction(2))     # the repository's own tests queue events with a negative delay
 
 TIER = dict(
     quick=dict(steps=40, gen=dict(max_states=12, max_depth=4, max_trans=14)),
@@ -29,6 +32,24 @@ TIER = dict(
 
 class Finding(Exception):
     pass
+
+
+class DelegatingEvaluator(Evaluator):
+    """A user-defined evaluator (documented extension point): only the two abstract primitives are provided, everything
+    else - evaluate_guard, execute_action, ... - is the *base class* behaviour."""
+
+    def __init__(self, interpreter=None, *, initial_context=None):
+        self._py = PythonEvaluator(interpreter, initial_context=initial_context)
+
+    @property
+    def context(self):
+        return self._py.context
+
+    def _evaluate_code(self, code, *, additional_context=None):
+        return self._py._evaluate_code(code, additional_context=additional_context)
+
+    def _execute_code(self, code, *, additional_context=None):
+        return self._py._execute_code(code, additional_context=additional_context)
 
 
 class Case:
@@ -44,7 +65,7 @@ class Case:
         self.st = self.ch['states']
         self.tdict = {t['id']: t for t in self.ch['transitions']}
         self.digest = chart_digest(self.ch)
-        self.via = via or rnd.choice(('api', 'api', 'yaml', 'edited'))
+        self.via = via or rnd.choice(('api', 'api', 'yaml', 'edited', 'roundtrip'))
         self.detours = None
         if self.via == 'edited':
             r = build.build_edited(self.ch, rnd)
@@ -57,6 +78,8 @@ class Case:
             self.sc, self.tmap = build.build_api(self.ch)
         elif self.via == 'yaml':
             self.sc, self.tmap = build.build_yaml(self.ch)
+        elif self.via == 'roundtrip':
+            self.sc, self.tmap = build.build_roundtrip(self.ch)
         p_true = rnd.choice((0.3, 0.6, 0.6, 0.9, 1.0, 0.0))
         self.p_true = p_true
         self.val = make_val(rnd.random(), p_true)
@@ -75,9 +98,18 @@ class Case:
                     pre.execute_once()
                 except Exception:       # noqa
                     break
-        self.it = Interpreter(self.sc, initial_context=self.pr.context())
+        kw_it = {}
+        if not self.ch.get('timed_plain') and rnd.random() < 0.12:
+            kw_it['evaluator_klass'] = DelegatingEvaluator
+            acc.count('cases_with_user_defined_evaluator')
+        clock = SimulatedClock()
+        if rnd.random() < 0.2:
+            clock.time = rnd.choice((8, 100, 1000.5))      # the clock does not have to be at 0 when the interpreter is created
+            acc.count('cases_with_preadvanced_clock')
+        self.it = Interpreter(self.sc, initial_context=self.pr.context(), clock=clock, **kw_it)
         self.it.attach(self.pr.listener(self.it))
         self.model = RefModel(self.ch)
+        self.model.time = clock.time        # time of the interpreter before its first step = clock value at construction
         self.next_uid = 0
         self.queued = {}            # uid -> (name, due, internal)
         self.queued_n = Counter()   # uid -> how many times it was queued (the same Event instance may be queued twice)
@@ -136,11 +168,11 @@ class Case:
             objs = [Event(name, u=u, delay=d) if d else Event(name, u=u) for name, u, d in evs]
             self.it.queue(*objs)
         for name, u, d in evs:
-            due = self.it.time + d
+            due = self.model.time + d
             self.model.queue(name, u, due)
             self.queued[u] = (name, due, False)
             self.queued_n[u] += 1
-            self.history.append(('queue', name, u, d, self.it.time))
+            self.history.append(('queue', name, u, repr(d), self.model.time))
 
     def op_clock(self, dt=None):
         dt = dt if dt is not None else self.rnd.choice(DT)
@@ -529,7 +561,7 @@ class Case:
         p_clock = rnd.choice((0.1, 0.3, 0.5))
         k = 0
         while k < nsteps and not self.stop:
-            if k > 0 and rnd.random() < p_queue:
+            if (k > 0 or rnd.random() < 0.3) and rnd.random() < p_queue:
                 self.op_queue()
             if rnd.random() < p_clock:
                 self.op_clock()
